@@ -236,9 +236,31 @@ def expr_cfg(mode: str, cmp_used: List[str], open_ids: List[str], fixed_ids: Lis
             'CONSTRAINT Emit\nINVARIANT DesignKnown\n')
 
 
+PROBES = {"equal-precedence-right-operand": "a-(b-c)", "singleton-tuple-comma": "(a,)",
+          "subscript-tuple-index": "x[()]", "slice-bound-tuple": "x[(a,):b]"}
+LIT_PROBES = {"bytes-single-quote": b"'", "str-nul-dropped": "\0"}
+
+
 def finding_status() -> Tuple[List[str], List[str]]:
+    """(open, fixed) finding ids.  The transcriptions in Expr*.tla have a switch per finding and follow the
+    repaired code for `fixed` ids, so the model stays in step once a proposed fix is applied.  An id counts as
+    fixed when known_findings.json says so, when VERIF_C15_FIXED names it, or when the canonical witness of the
+    finding no longer reproduces on the tree under test (one probe per finding; every other case of the class is
+    then checked against the repaired transcription)."""
+    import os
     fs = load_known_findings("C15")
-    return ([f["id"] for f in fs if f.get("status") == "open"], [f["id"] for f in fs if f.get("status") == "fixed"])
+    fixed = {f["id"] for f in fs if f.get("status") == "fixed"}
+    fixed |= {x for x in os.environ.get("VERIF_C15_FIXED", "").split(",") if x}
+    for fid, src in PROBES.items():
+        e = ast.parse(src, mode="eval").body
+        if same_expr(shown_inline(ast.parse(src, mode="eval").body)[0], e)[0]:
+            fixed.add(fid)
+    for fid, val in LIT_PROBES.items():
+        got = literal_value(shown_pyval(ast.Constant(val), 0, 0, False)[0])
+        if type(got) is type(val) and got == val:
+            fixed.add(fid)
+    open_ids = [f["id"] for f in fs if f.get("status") == "open" and f["id"] not in fixed]
+    return open_ids, sorted(fixed)
 
 
 def judge_tree(ctx: Ctx, rec: Dict[str, Any], origin: str, stats: Dict[str, int]) -> None:
@@ -390,6 +412,211 @@ def kf_literal(fid: str, open_ids: List[str]):
     return match
 
 
+# ----------------------------------------------------------------- line wrapping / truncation (ExprLayout.tla)
+LAYOUT_SOURCES = ["alpha", "12345678901234", "'hello world'", "'ab\\ncd'", "alpha+beta*gamma", "(alpha+beta)*gamma",
+                  "[alpha, beta, 123]", "[alpha, [beta, 'x\\ny'], gamma]", "func(alpha, beta, key=value)",
+                  "-(alpha and beta or gamma)", "(alpha, beta)", "f(k=(a+b)*c)", "[]", "f()",
+                  "[(aa+bb)*cc, 'it\\'s', f(x, y=[1, 2])]", "not (a or 'p\\nq')"]
+L_UN = {ast.USub: "-", ast.Not: "not", ast.Invert: "~", ast.UAdd: "+"}
+L_BIN = {ast.Add: "+", ast.Sub: "-", ast.Mult: "*", ast.Pow: "**", ast.FloorDiv: "//", ast.Div: "/", ast.BitOr: "|"}
+L_SYM = {"NL": "\n", "WRAP": chr(8629), "ELL": "...", "sq": "'", "bs": "\\", "nl": "\n"}
+L_CHR = {"\n": "NL", chr(8629): "WRAP", "'": "sq", "\\": "bs"}
+
+
+def layout_tree(e: ast.AST) -> Dict[str, Any]:
+    """ast -> the tree encoding of ExprLayout.tla (texts are sequences of one-character strings)."""
+    N = lambda k, op, kids: {"k": k, "op": op, "kids": kids}
+    if isinstance(e, ast.Name):
+        return N("Name", list(e.id), [])
+    if isinstance(e, ast.Constant) and isinstance(e.value, str):
+        return N("Str", [{"\n": "nl", "'": "sq", "\\": "bs"}.get(c, c) for c in e.value], [])
+    if isinstance(e, ast.Constant) and type(e.value) is int:
+        return N("Num", list(str(e.value)), [])
+    if isinstance(e, ast.UnaryOp):
+        return N("Unary", L_UN[type(e.op)], [layout_tree(e.operand)])
+    if isinstance(e, ast.BinOp):
+        return N("Bin", L_BIN[type(e.op)], [layout_tree(e.left), layout_tree(e.right)])
+    if isinstance(e, ast.BoolOp):
+        return N("Bool", "and" if isinstance(e.op, ast.And) else "or", [layout_tree(v) for v in e.values])
+    if isinstance(e, (ast.List, ast.Tuple)):
+        return N(type(e).__name__, "", [layout_tree(v) for v in e.elts])
+    if isinstance(e, ast.Call):
+        return N("Call", "", [layout_tree(e.func)] + [layout_tree(v) for v in e.args]
+                 + [N("Kw", list(k.arg or ""), [layout_tree(k.value)]) for k in e.keywords])
+    raise MachineryError("layout_tree: form outside ExprLayout.tla: " + ast.dump(e))
+
+
+def gen_layout_source(rng: random.Random, depth: int) -> str:
+    name = lambda: rng.choice(["a", "bb", "ccc", "delta", "epsilon7", "x.y.z".replace(".", "_")])
+    if depth <= 0 or rng.random() < 0.2:
+        r = rng.random()
+        if r < 0.55:
+            return name()
+        if r < 0.75:
+            return str(rng.choice([0, 7, 42, 123456, 98765432101234]))
+        return repr(rng.choice(["s", "two words", "l1\nl2", "q'q", "b\\s", "", "a\n\nb"]))
+    g = lambda: gen_layout_source(rng, depth - 1)
+    r = rng.random()
+    if r < 0.25:
+        # left operand only: the right-operand grouping defect is C15's other finding, not this contract's
+        return f"({g()}){rng.choice(['+', '-', '*', '**', '//', '|'])}{name()}"
+    if r < 0.33:
+        return f"{rng.choice(['-', 'not ', '~'])}({g()})"
+    if r < 0.43:
+        return "(" + rng.choice([" and ", " or "]).join(f"({g()})" for _ in range(rng.choice([2, 3]))) + ")"
+    if r < 0.63:
+        return "[" + ", ".join(g() for _ in range(rng.choice([0, 1, 2, 3, 4]))) + "]"
+    if r < 0.75:
+        return "(" + ", ".join(g() for _ in range(rng.choice([0, 2, 3]))) + ")"
+    args = [g() for _ in range(rng.choice([0, 1, 2]))] + [f"{rng.choice(['k', 'key'])}={g()}" for _ in range(rng.choice([0, 0, 1, 2]))]
+    return f"{name()}({', '.join(args)})"
+
+
+def to_symbols(text: str, complete: bool) -> List[str]:
+    body = text[:-3] if (not complete and text.endswith("...")) else text
+    return [L_CHR.get(ch, ch) for ch in body] + (["ELL"] if (not complete and text.endswith("...")) else [])
+
+
+def essence_py(sym: List[str]) -> List[str]:
+    """Python twin of ExprLayout.tla!Essence."""
+    out: List[str] = []
+    i = 0
+    while i < len(sym):                                   # Unwrap
+        if sym[i] == "WRAP":
+            i += 2 if i + 1 < len(sym) and sym[i + 1] == "NL" else 1
+        else:
+            out.append(sym[i]); i += 1
+    sym, out, i = out, [], 0
+    while i < len(sym):                                   # Canon
+        if sym[i] == "," and i + 1 < len(sym) and sym[i + 1] == "NL":
+            out += [",", " "]; i += 2
+            while i < len(sym) and sym[i] == " ":
+                i += 1
+        else:
+            out.append(sym[i]); i += 1
+    sym, out, i = out, [], 0
+    while i < len(sym):                                   # Quotes
+        if sym[i:i + 3] == ["sq", "sq", "sq"]:
+            out.append("sq"); i += 3
+        elif sym[i] == "NL":
+            out += ["bs", "n"]; i += 1
+        else:
+            out.append(sym[i]); i += 1
+    return out
+
+
+def marked_py(full: List[str], shown: List[str], complete: bool) -> bool:
+    if complete:
+        return essence_py(shown) == essence_py(full) and "ELL" not in shown
+    return bool(shown) and shown[-1] == "ELL"
+
+
+def layout_cfg(source: str, maxll: int, maxml: int, fixed_ids: List[str]) -> str:
+    return (f'SPECIFICATION Spec\nCONSTANTS Source = "{source}"\n          MaxLineLen = {maxll}\n'
+            f'          MaxMaxLines = {maxml}\n          Fixed = {tla(set(fixed_ids))}\nCONSTRAINT Emit\n'
+            + ("INVARIANT DesignMarked\n" if source == "enum" else ""))
+
+
+def run_layout(ctx: Ctx, rng: random.Random, fixed_ids: List[str], stats: Dict[str, int]) -> None:
+    maxll, maxml = (12, 3) if ctx.quick else (24, 4)
+    sources = list(LAYOUT_SOURCES)
+    want = 26 if ctx.quick else 70
+    while len(sources) < want:
+        src = gen_layout_source(rng, rng.choice([2, 3]))
+        if len(src) <= 70 and src not in sources:
+            sources.append(src)
+    asts = [ast.parse(sx, mode="eval").body for sx in sources]
+    trees = [layout_tree(e) for e in asts]
+    f = ctx.scratch / "layout_trees.json"
+    f.write_text(json.dumps(trees))
+    # ---- spec -> code: TLC predicts text + is_complete for every (tree, linelen, maxlines, linebreakok)
+    r = ctx.tlc("ExprLayout", layout_cfg("enum", maxll, maxml, fixed_ids), workers="auto", extra=["-continue"],
+                env={"LAYOUT_FILE": str(f)}, timeout=900)
+    if r.errors or (r.rc != 0 and not r.violated):
+        raise MachineryError(f"TLC failed on ExprLayout: {r.errors[:3]}\n" + "\n".join(r.out.splitlines()[-25:]))
+    if len(r.printed) != r.distinct:
+        raise MachineryError(f"ExprLayout: {r.distinct} cases but {len(r.printed)} records")
+    ctx.extra["layout_design_level_invariants_violated"] = sorted(set(r.violated))
+    full_cache: Dict[Tuple[int, bool], str] = {}
+    observations: List[Dict[str, Any]] = []
+    verdicts: List[bool] = []
+    for rec in r.printed:
+        ti, ll, ml, lbok = rec["ti"] - 1, rec["ll"], rec["ml"], rec["lbok"]
+        src = sources[ti]
+        shown, complete = shown_pyval(ast.parse(src, mode="eval").body, ll, ml, lbok)
+        ctx.traces += 1
+        stats["layout"] += 1
+        model = "".join(L_SYM.get(x, x) for x in rec["text"])
+        if shown != model or complete != rec["complete"]:
+            stats["drift"] += 1
+            ctx.drift_note({"source": src, "linelen": ll, "maxlines": ml, "linebreakok": lbok,
+                            "model": [model, rec["complete"]], "real": [shown, complete]})
+        if (ti, lbok) not in full_cache:
+            full_cache[(ti, lbok)] = shown_pyval(ast.parse(src, mode="eval").body, 0, 0, lbok)[0]
+        full = full_cache[(ti, lbok)]
+        # verdict on the REAL text: nothing lost if complete (exact: it parses back to what the unlimited text
+        # parses to), ellipsis if not
+        if complete:
+            stats["layout_complete"] += 1
+            a, b = parse_expr(shown.replace(chr(8629) + "\n", "")), parse_expr(full)
+            ok = (a is not None and b is not None and canon(a) == canon(b)) if b is not None else \
+                essence_py(to_symbols(shown, True)) == essence_py(to_symbols(full, True))
+            if chr(8629) in shown:
+                stats["layout_wrapped"] += 1
+        else:
+            stats["layout_cut"] += 1
+            ok = shown.endswith("...")
+        obs = {"linelen": ll, "maxlines": ml, "lbok": lbok, "complete": complete,
+               "full": to_symbols(full, True), "shown": to_symbols(shown, complete), "src": src}
+        observations.append(obs)
+        verdicts.append(ok)
+        if not ok:
+            stats["violations"] += 1
+            ctx.violation({"invariant": "Marked", "origin": "layout", "input": src, "linelen": ll, "maxlines": ml,
+                           "linebreakok": lbok, "observed": {"shown": shown, "is_complete": complete, "unlimited": full},
+                           "expected": "is_complete => the text read across the wrap markers is the whole value; "
+                                       "not is_complete => the text ends with the ellipsis",
+                           "key": f"marked:{src}:{complete}"})
+        if stats["layout"] % 900 == 5:
+            ctx.sample({"source": src, "linelen": ll, "maxlines": ml, "linebreakok": lbok, "shown": shown,
+                        "is_complete": complete})
+    # ---- code -> spec: TLC evaluates the contract on the OBSERVED texts
+    tlc_marked: List[bool] = []
+    for batch in chunks(observations, 4000):
+        g = ctx.scratch / "layout_obs.json"
+        g.write_text(json.dumps([{k: v for k, v in o.items() if k != "src"} for o in batch]))
+        r2 = ctx.tlc("ExprLayout", layout_cfg("file", 0, 0, fixed_ids), workers="auto", env={"LAYOUT_FILE": str(g)},
+                     timeout=900, check=True)
+        got = {rec["ti"]: rec["marked"] for rec in r2.printed}
+        if len(got) != len(batch):
+            raise MachineryError(f"ExprLayout(file): {len(got)} verdicts for {len(batch)} observations")
+        tlc_marked += [got[i] for i in range(1, len(batch) + 1)]
+    for o, ok, tm in zip(observations, verdicts, tlc_marked):
+        ctx.traces += 1
+        if tm != marked_py(o["full"], o["shown"], o["complete"]):
+            raise MachineryError(f"ExprLayout.tla!Marked and its Python twin disagree on {o}")
+        if tm != ok:
+            # the structural contract (TLC) and the exact one (ast.parse) differ: not a verdict, worth a look
+            ctx.notes.append(f"Marked(TLC)={tm} but parse-based verdict={ok} for {o['src']!r} "
+                             f"linelen={o['linelen']} maxlines={o['maxlines']}")
+    # ---- negative control: an unmarked cut and a silently shortened text must be rejected by TLC
+    cut = next((o for o in observations if not o["complete"]), None)
+    whole = next((o for o in observations if o["complete"] and len(o["shown"]) > 4), None)
+    nc = {"unmarked_cut_rejected": False, "silently_shortened_rejected": False}
+    if cut and whole:
+        broken = [dict(cut, shown=cut["shown"][:-1]), dict(whole, shown=whole["shown"][:2] + whole["shown"][3:])]
+        g = ctx.scratch / "layout_obs.json"
+        g.write_text(json.dumps([{k: v for k, v in o.items() if k != "src"} for o in broken]))
+        r3 = ctx.tlc("ExprLayout", layout_cfg("file", 0, 0, fixed_ids), workers=1, env={"LAYOUT_FILE": str(g)},
+                     timeout=300, check=True, count=False)
+        got = {rec["ti"]: rec["marked"] for rec in r3.printed}
+        nc = {"unmarked_cut_rejected": got.get(1) is False, "silently_shortened_rejected": got.get(2) is False}
+    ctx.extra["negative_control"] = nc
+    if not all(nc.values()):
+        raise MachineryError(f"negative control failed: {nc}")
+    ctx.extra["layout_sources"] = len(sources)
+
+
 # ------------------------------------------------------------------------------ random deeper trees
 def gen_tree(rng: random.Random, depth: int) -> Dict[str, Any]:
     N = lambda k, op, kids: {"k": k, "op": op, "kids": kids}
@@ -458,7 +685,8 @@ def run(ctx: Ctx) -> int:
         ctx.register_matcher(fid, kf_literal(fid, open_ids))
     check_astor_table(ctx)
     stats = {k: 0 for k in ("seen", "drift", "design_bad", "violations", "incomplete", "necessity_checked",
-                            "design_bad_but_real_ok", "strings")}
+                            "design_bad_but_real_ok", "strings", "layout", "layout_complete", "layout_wrapped",
+                            "layout_cut")}
     design_violated: List[str] = []
 
     def tlc_cases(mode: str, cmp_used: List[str], env: Optional[Dict[str, str]] = None) -> List[Dict[str, Any]]:
@@ -495,6 +723,8 @@ def run(ctx: Ctx) -> int:
     ctx.extra["random_deeper_trees"] = nfile
     # ---- string / bytes literals (ExprStr.tla)
     run_strings(ctx, open_ids, fixed_ids, stats)
+    # ---- line length / line count: wrapping, truncation, is_complete (ExprLayout.tla)
+    run_layout(ctx, rng, fixed_ids, stats)
     ctx.extra["expr_stats"] = stats
     ctx.extra["design_level_invariants_violated"] = design_violated
     ctx.extra["known_finding_ids"] = {"open": open_ids, "fixed": fixed_ids}
